@@ -269,6 +269,9 @@ func permutations(r *core.Rand, n int, full int, sample int, f func(p []int)) {
 }
 
 func runC04(c *core.Ctx) {
+	if c.Index%61 == 17 {
+		skipInterplay(c, "C04")
+	}
 	n1, n2, n3, _ := c04Counts(c.Tier)
 	np := len(c04AllPairs)
 	var pairs []c04Pair
